@@ -8,7 +8,8 @@ Contracts (from the property statement; DESIGN.md §2 C04):
           H2 `mol.check_valence()` == atoms for which the re-derivation has no candidate;
           H3 `check_implicit(n, h)` <=> h among the candidates, h = 0..4;
           H4 lower-bound ("textbook") model: octet / normal valence states must carry v - S hydrogens;
-          H5 one-directional RDKit: chython assigns a count => RDKit accepts the atom and reports the same total;
+          H5 one-directional RDKit (central atoms of the organic subset only; As, Se excluded): chython assigns a count => RDKit accepts the
+             atom and reports the same total;
           T  brutto / int(mol) / mol.is_radical / float(mol) == sums over atoms including implicit hydrogens.
   arom  - the aromatic-carbon special cases of calc_implicit on ring carbons built with order-4 bonds (H1, H2, T).
   corpus- whole molecules after kekule()+thiele(): atom by atom vs RDKit (total H, charge), formula, charge, radical, MolWt;
@@ -27,6 +28,7 @@ ORDERS = (1, 2, 3)
 CHARGES = (-2, -1, 0, 1, 2)
 MAXV = 6         # violations reported per work item
 HYPERVALENT_HALOGENS = ('Cl', 'Br', 'I')
+RDKIT_ELEMENTS = ('B', 'C', 'N', 'O', 'F', 'Si', 'P', 'S', 'Cl', 'Br', 'I')   # organic subset: RDKit comparison (H5) only here
 
 
 def _setup():
@@ -63,6 +65,14 @@ def build_ring(kind, sym, ch, rad, envt):
     from chython.periodictable import Element
     m = MoleculeContainer()
     m.add_atom(Element.from_symbol(sym)(charge=ch, is_radical=rad), 1, _skip_calculation=True)
+    if kind == 'x8':   # no ring: the star of the plain grid plus one "any" bond (order 8) to a metal atom, which must not count
+        m.add_atom('Fe', 2, _skip_calculation=True)
+        m.add_bond(1, 2, 8, _skip_calculation=True)
+        for j, (o, e) in enumerate(envt, 3):
+            m.add_atom(e, j, _skip_calculation=True)
+            m.add_bond(1, j, o, _skip_calculation=True)
+        m.fix_structure()
+        return m
     if kind == 'a2':
         cyc = [[1, 2, 3, 4, 5, 6]]
     elif kind == 'a3':
@@ -193,7 +203,7 @@ def check_state(sym, ch, rad, envt, ring='', reuse=None):
         if t is not None and t != h:
             bad.append(('H4-textbook-state', f'{tag}: textbook valence state must carry {t} hydrogens, implicit_hydrogens={h}',
                         {'library': h, 'reference': t}))
-        if h is not None:
+        if h is not None and sym in RDKIT_ELEMENTS:
             rh = O.rdkit_total_h(sym, ch, rad, envt)
             th = h + sum(1 for _, e in envt if e == 'H')
             info['rdkit'] = rh
@@ -373,12 +383,13 @@ def bounded(run):
     run.bound('grid56 (exhaustive): same states x all 714 multisets of 5-6 bonds of orders 1-2 to (F, O, C)')
     # 3. aromatic-carbon special cases on real rings
     items = []
-    for kind, sizes in (('a2', (0, 1, 2)), ('a3', (0, 1)), ('a1', (0, 1)), ('a4', (0,))):
+    for kind, sizes in (('a2', (0, 1, 2)), ('a3', (0, 1)), ('a1', (0, 1)), ('a4', (0,)), ('x8', (0, 1, 2))):
         for sym in O.ORGANIC:
             items.append((sym, CHARGES if sym == 'C' else (-1, 0, 1), O.NEIGHBOURS, sizes, ORDERS, 0, 1, kind))
     collect(pmap(w_grid, items), 'arom')
     run.bound('arom (exhaustive): ring position with 2 / 3 / 1 / 4 aromatic (order 4) bonds in benzene / naphthalene-fusion / dangling / spiro '
-              'carbocycles x 13 elements x charges x radical flag x all multisets of <= 2 / 1 / 1 / 0 further bonds')
+              'carbocycles x 13 elements x charges x radical flag x all multisets of <= 2 / 1 / 1 / 0 further bonds; plus (x8) the plain star with one '
+              'additional "any" bond (order 8) to Fe x all multisets of <= 2 bonds: the count must ignore it')
     if thorough:
         ext = ('Br', 'I', 'P', 'B', 'Se', 'Si', 'C', 'O')
         items = [(sym, CHARGES, ext, (1, 2, 3), ORDERS, p, 8, '') for sym in O.ORGANIC for p in range(8)]
@@ -400,6 +411,9 @@ def bounded(run):
                'one-directional (library assigns a count => RDKit accepts and agrees); RDKit rejections of hypervalent Cl/Br/I states (sum of bond '
                'orders > 1: RDKit valence lists are Cl [1], Br [1], I [1,3,5]; ClF3, BrF3, HXOn, IO3F, polyhalide anions) are outside the oracle and '
                'only counted (rdkit_out_of_domain)',
+               'the RDKit comparison (H5) is made only for central atoms of the organic subset B C N O F Si P S Cl Br I; As and Se are in the grid for the '
+               'table re-derivation, check_valence, check_implicit and totals contracts only (RDKit\'s valence model against the library tables for '
+               'elements outside the organic subset is outside the property: e.g. bare As is As(0) by the tables, AsH3 for RDKit)',
                'corpus molecules are valence-valid drug-like structures: RDKit (full sanitization) and the library must agree on every atom in both directions',
                'standard atomic weights of RDKit\'s periodic table; masses compared within 0.05')
     run.notes['c04_bounded_stats'] = dict(stats)
